@@ -228,6 +228,44 @@ namespace xv
         template <class Z, class W>
         static Z f(Z a, W const& b) { a /= b; return a; }
     };
+    struct c_add_assign
+    {
+        template <class Z, class W>
+        static Z f(Z a, W const& b) { a += b; return a; }
+    };
+    struct c_mul_assign
+    {
+        template <class Z, class W>
+        static Z f(Z a, W const& b) { a *= b; return a; }
+    };
+    // the same object on both sides (a compound assignment that reads `other` after writing a member goes wrong only here)
+#define XV_CSELF(NAME, STMT)                     \
+    struct NAME                                  \
+    {                                            \
+        template <class Z>                       \
+        static Z f(Z a) { STMT; return a; }      \
+    };
+    XV_CSELF(c_selfadd, a += a)
+    XV_CSELF(c_selfsub, a -= a)
+    XV_CSELF(c_selfmul, a *= a)
+    XV_CSELF(c_selfmul_op, a = a * a)
+    XV_CSELF(c_selfdiv, a /= a)
+    XV_CSELF(c_selffma, a = xs::fma(a, a, a))
+    struct c_mul_assign_real
+    {
+        template <class Z, class W>
+        static Z f(Z a, W const& b) { a *= b.real(); return a; } // complex batch *= real batch
+    };
+    struct c_div_real
+    {
+        template <class Z, class W>
+        static Z f(Z const& a, W const& b) { return a / b.real(); } // complex batch / real batch
+    };
+    struct c_sub_real_l
+    {
+        template <class Z, class W>
+        static Z f(Z const& a, W const& b) { return b.real() - a; } // real batch - complex batch
+    };
     struct c_get
     {
         template <class Z>
@@ -312,6 +350,17 @@ namespace xv
         creg<T, c_mul_real, 1>("c.mul.real");
         creg<T, c_sub_assign, 1>("c.sub.assign");
         creg<T, c_div_assign, 1>("c.div.assign");
+        creg<T, c_add_assign, 1>("c.add.assign");
+        creg<T, c_mul_assign, 1>("c.mul.assign");
+        creg<T, c_selfadd, 0>("c.selfadd");
+        creg<T, c_selfsub, 0>("c.selfsub");
+        creg<T, c_selfmul, 0>("c.selfmul");
+        creg<T, c_selfmul_op, 0>("c.selfmul.op");
+        creg<T, c_selfdiv, 0>("c.selfdiv");
+        creg<T, c_selffma, 0>("c.selffma");
+        creg<T, c_mul_assign_real, 1>("c.mul.assign.real");
+        creg<T, c_div_real, 1>("c.div.real");
+        creg<T, c_sub_real_l, 1>("c.sub.real.l");
         creg<T, c_get, 0>("c.get");
         creg<T, c_bcast, 0>("c.broadcast");
         creg<T, c_scalar_mul, 0>("c.mul.scalar");
